@@ -27,17 +27,20 @@ type Claim struct {
 	Targets []uint64
 	Proof   []H
 	Mut     string // how it was derived from the honest message
+	// an empty list is passed as an empty, non-nil slice (Go code sometimes treats the two differently)
+	EmptyNonNil bool
 }
 
 type claimJSON struct {
-	Hashes  []string `json:"hashes"`
-	Targets []uint64 `json:"targets"`
-	Proof   []string `json:"proof"`
-	Mut     string   `json:"mutation"`
+	Hashes      []string `json:"hashes"`
+	Targets     []uint64 `json:"targets"`
+	Proof       []string `json:"proof"`
+	Mut         string   `json:"mutation"`
+	EmptyNonNil bool     `json:"empty_lists_non_nil,omitempty"`
 }
 
 func (c Claim) toJSON() claimJSON {
-	j := claimJSON{Targets: c.Targets, Mut: c.Mut}
+	j := claimJSON{Targets: c.Targets, Mut: c.Mut, EmptyNonNil: c.EmptyNonNil}
 	for _, h := range c.Hashes {
 		j.Hashes = append(j.Hashes, hex.EncodeToString(h[:]))
 	}
@@ -48,7 +51,7 @@ func (c Claim) toJSON() claimJSON {
 }
 
 func (j claimJSON) toClaim() Claim {
-	c := Claim{Targets: j.Targets, Mut: j.Mut}
+	c := Claim{Targets: j.Targets, Mut: j.Mut, EmptyNonNil: j.EmptyNonNil}
 	dec := func(s string) H {
 		var h H
 		b, _ := hex.DecodeString(s)
@@ -450,13 +453,33 @@ func (e *byzEngine) genClaims(bc *ByzCase, bs *byzState, stats *Stats) []Claim {
 			for k := 0; k < 30; k++ {
 				out = append(out, e.extremeClaim(r, st.N, &base))
 			}
+			// length skew between hashes, targets and proof hashes, down to empty lists
+			skew := func(mut string, f func(c *Claim)) {
+				for _, nn := range []bool{false, true} {
+					c := base.clone()
+					c.Mut = "skew: " + mut
+					c.EmptyNonNil = nn
+					f(&c)
+					out = append(out, c)
+				}
+			}
+			skew("no hashes", func(c *Claim) { c.Hashes = nil })
+			skew("no targets", func(c *Claim) { c.Targets = nil })
+			skew("no proof hashes", func(c *Claim) { c.Proof = nil })
+			skew("no hashes, no proof hashes", func(c *Claim) { c.Hashes, c.Proof = nil, nil })
+			skew("no hashes, no targets", func(c *Claim) { c.Hashes, c.Targets = nil, nil })
+			skew("everything empty", func(c *Claim) { c.Hashes, c.Targets, c.Proof = nil, nil, nil })
+			skew("one hash short", func(c *Claim) { c.Hashes = c.Hashes[:len(c.Hashes)-1] })
+			skew("one target short", func(c *Claim) { c.Targets = c.Targets[:len(c.Targets)-1] })
+			skew("one hash too many", func(c *Claim) { c.Hashes = append(c.Hashes, H{0x51, 1}) })
+			skew("one target too many", func(c *Claim) { c.Targets = append(c.Targets, c.Targets[0]^1) })
 		}
 	}
 	return out
 }
 
 func (c Claim) clone() Claim {
-	return Claim{Hashes: append([]H(nil), c.Hashes...), Targets: append([]uint64(nil), c.Targets...), Proof: append([]H(nil), c.Proof...), Mut: c.Mut}
+	return Claim{Hashes: append([]H(nil), c.Hashes...), Targets: append([]uint64(nil), c.Targets...), Proof: append([]H(nil), c.Proof...), Mut: c.Mut, EmptyNonNil: c.EmptyNonNil}
 }
 
 // sweep: the complete single-fault space of an honest message.
@@ -767,6 +790,17 @@ func (e *byzEngine) evaluate(bs *byzState, c Claim, prog *byzProgress, stats *St
 		// fresh copies for every call: the verifier must not be able to disturb the next one
 		hashes := append([]H(nil), c.Hashes...)
 		proof := u.Proof{Targets: append([]uint64(nil), c.Targets...), Proof: append([]H(nil), c.Proof...)}
+		if c.EmptyNonNil {
+			if len(hashes) == 0 {
+				hashes = []H{}
+			}
+			if len(proof.Targets) == 0 {
+				proof.Targets = []uint64{}
+			}
+			if len(proof.Proof) == 0 {
+				proof.Proof = []H{}
+			}
+		}
 		if bs.big != nil {
 			for i, t := range proof.Targets {
 				proof.Targets[i] = bs.big.up(t, bs.st.N)
